@@ -58,7 +58,7 @@ func init() {
 // that category's name, the test's match text — possibly empty — (operand for the default) as value and the
 // operand as input; a timeout resume leaves by the timeout category; the
 // step's exit, the returned exit and the logged segment agree.
-// cover: first-case, later-case, default, no-category, timeout, result-saved, test-error, localized-args, mismatched-args, evaluated-args, empty-match
+// cover: case-of-default-category, first-case, later-case, default, no-category, timeout, result-saved, test-error, localized-args, mismatched-args, evaluated-args, empty-match
 func VerifC07_Switch() {
 	maxCases := 3
 	if zzverif.Thorough() {
@@ -97,9 +97,19 @@ func VerifC07_Switch() {
 	var cs []*routers.Case
 	caseCat := make([]byte, ncases)
 	for k := 0; k < ncases; k++ {
+		// a case may also point at the category that is the default (nothing
+		// forbids it: "Other" reached by a test as well as by no test)
 		caseCat[k] = zzverif.Byte("case-category")
-		zzverif.Assume(int(caseCat[k]) < ncats)
-		cs = append(cs, routers.NewCase(uuids.UUID("k"+string(rune('0'+k))), "verif_rec_test", []string{"arg" + string(rune('0'+k))}, flows.CategoryUUID(string([]byte{'c', '0' + caseCat[k]}))))
+		limit := ncats
+		if hasDefault {
+			limit = ncats + 1
+		}
+		zzverif.Assume(int(caseCat[k]) < limit)
+		cu := flows.CategoryUUID(string([]byte{'c', '0' + caseCat[k]}))
+		if int(caseCat[k]) == ncats {
+			cu = "cd"
+		}
+		cs = append(cs, routers.NewCase(uuids.UUID("k"+string(rune('0'+k))), "verif_rec_test", []string{"arg" + string(rune('0'+k))}, cu))
 	}
 	resultName := ""
 	if hasResult {
@@ -199,6 +209,9 @@ func VerifC07_Switch() {
 		wantExit, wantName = "et", "No Response"
 	case wantCat == -1:
 		wantExit, wantName = "ed", "Other"
+	case wantCat == ncats:
+		wantExit, wantName = "ed", "Other" // a case whose category is the default one: its exit and name, the test's match as value
+		zzverif.Cover("case-of-default-category")
 	case wantCat >= 0:
 		wantExit, wantName = flows.ExitUUID("e"+string(rune('0'+wantCat))), catName[wantCat]
 	}
